@@ -28,6 +28,11 @@ func runC15(c *an.Ctx) {
 	r15f(c)
 	r15g(c)
 	r15h(c)
+	// round 7
+	r15i(c)
+	r15j(c)
+	r15k(c)
+	r15l(c)
 }
 
 var c15Funcs = []struct{ pkg, name, role string }{
